@@ -1063,7 +1063,7 @@ class slice(Stream):
         self._check_end()
 
     def update(self, x, who=None, metadata=None):
-        if self.state >= self.star and self.state % self.step == 0:
+        if self.state >= self.star and (self.state - self.star) % self.step == 0:
             self.emit(x, metadata=metadata)
         self.state += 1
         self._check_end()
